@@ -234,9 +234,59 @@ func init() {
 						continue
 					}
 					o.Count("op-word")
-					o.Emit(Case{Term: N("c07op", S(doc), I(int64(len(pre))), I(int64(len(word)))), Obs: obs,
+					o.Emit(Case{Term: N("c07op", A("opword"), S(doc), I(int64(len(pre))), I(int64(len(word)))), Obs: obs,
 						Meta: map[string]interface{}{"doc": doc, "response": fmt.Sprint(res)}, Nontrivial: true})
 					c07Envelope(o, sroot, doc, "", nil, "op-word")
+				}
+			}
+		}
+		// "missing fragment condition": what stands where `on` is expected, against every kind of following byte (D70)
+		locOf := func(res map[string]interface{}, msg string) T {
+			if ea, ok := res["errors"].([]interface{}); ok {
+				for _, e := range ea {
+					em, _ := e.(map[string]interface{})
+					if m, _ := em["message"].(string); !strings.Contains(m, msg) {
+						continue
+					}
+					if l, ok := em["locations"].([]interface{}); ok && len(l) > 0 {
+						lm, _ := l[0].(map[string]interface{})
+						li, _ := lm["line"].(int)
+						co, _ := lm["column"].(int)
+						return N("loc", I(int64(li)), I(int64(co)))
+					}
+				}
+			}
+			return N("noloc")
+		}
+		for _, pre := range []string{"fragment F ", "fragment F\n", "{ s }\nfragment F\n  ", "fragment F # c\n", "fragment F\r\n"} {
+			for _, word := range []string{"x", "onn", "Query", "o"} {
+				for _, post := range []string{"", " ", "\n", "\r\n", "{", " Query { s }", "\nQuery { s }", "#c\n", "\t", "\n\n"} {
+					doc := pre + word + post
+					obs := locOf(safeResolve(sroot, doc, "", nil), "missing fragment condition")
+					if obs.Tag == "noloc" {
+						o.Count("frag-cond-error-not-reached")
+						continue
+					}
+					o.Count("frag-cond")
+					o.Emit(Case{Term: N("c07op", A("fragcond"), S(doc), I(int64(len(pre))), I(int64(len(word)))), Obs: obs,
+						Meta: map[string]interface{}{"doc": doc}, Nontrivial: true})
+					c07Envelope(o, sroot, doc, "", nil, "frag-cond")
+				}
+			}
+		}
+		// a variable whose value can not be coerced: the error is located at the variable's name (D71)
+		for _, pre := range []string{"query ($", "query (\n$", "query Q(\n  $", "query ($a: Int, $", "query ($a: Int\n$", "query (#c\n$"} {
+			for _, name := range []string{"v", "vv", "longer_name"} {
+				for _, post := range []string{": Int", " : Int", "\n: Int", "\n  : Int", "\r\n: Int", "#c\n: Int", "\t: Int", ",: Int"} {
+					doc := pre + name + post + ") { s }"
+					obs := locOf(safeResolve(sroot, doc, "", map[string]interface{}{name: "not a number"}), "can not coerce")
+					if obs.Tag == "noloc" {
+						o.Count("var-def-error-not-reached")
+						continue
+					}
+					o.Count("var-def")
+					o.Emit(Case{Term: N("c07op", A("vardef"), S(doc), I(int64(len(pre))), I(int64(len(name)))), Obs: obs,
+						Meta: map[string]interface{}{"doc": doc}, Nontrivial: true})
 				}
 			}
 		}
